@@ -862,6 +862,196 @@ func vfEstabCase(f []string) string {
 	return "estab " + strings.Join(out, " ")
 }
 
+// e2e <fault>...: TWO real Components — a LAC (StartLACSession) and an LNS — joined by a harness network carrying the
+// real wire bytes both ways through both real Dispatch functions, real runners, real timers.  Faults address the
+// k-th control packet (ZLBs and retransmissions count) of a direction (a = LAC->LNS, b = LNS->LAC):
+//   x<dir><k> drop it, u<dir><k> deliver it twice, l<dir><k> deliver it 300 ms late (reordering),
+//   v<dir><k> deliver it now AND a copy 300 ms late (duplicate + delay).
+// The bring-up is SCCRQ / SCCRP / SCCCN+ICRQ / ICRP / ICCN.  Result after the exchange has settled (both sessions
+// established and 700 ms of quiet, or 7 s): tunnels and sessions on each side and whether both sessions reached
+// Established — exactly-once delivery means exactly one tunnel and one session per side whatever the network did.
+func vfE2ECase(f []string) string {
+	lacIP := net.IPv4(10, 0, 0, 1).To4()
+	lnsIP := net.IPv4(10, 0, 0, 2).To4()
+	type fault struct{ drop, dup, late, lateDup bool }
+	faults := map[string]fault{}
+	for _, t := range f {
+		if len(t) < 3 {
+			continue
+		}
+		key := t[1:]
+		fl := faults[key]
+		switch t[0] {
+		case 'x':
+			fl.drop = true
+		case 'u':
+			fl.dup = true
+		case 'l':
+			fl.late = true
+		case 'v':
+			fl.lateDup = true
+		}
+		faults[key] = fl
+	}
+	lac := New(logger.Get("l2tp"))
+	lns := New(logger.Get("l2tp"))
+	stop := make(chan struct{})
+	link := func(dir string, from, to net.IP, dst *Component) (SendControlFn, chan []byte) {
+		ch := make(chan []byte, 256)
+		var mu sync.Mutex
+		count := 0
+		deliver := func(wire []byte) {
+			pkt := &dataplane.ParsedPacket{
+				Protocol: models.ProtocolL2TP,
+				IPv4:     &layers.IPv4{SrcIP: from, DstIP: to},
+				UDP:      &layers.UDP{SrcPort: 1701, DstPort: 1701},
+			}
+			pkt.UDP.Payload = wire
+			_ = dst.Dispatch(pkt)
+		}
+		go func() { // one consumer per direction, like the punt consumer: in-order unless a fault says otherwise
+			for {
+				select {
+				case <-stop:
+					return
+				case w := <-ch:
+					deliver(w)
+				}
+			}
+		}()
+		fn := func(localIP, peerIP net.IP, lp, pp uint16, h l2tppkt.Header, body []byte) error {
+			if !h.IsControl {
+				return nil // PPP data frames are not part of the control connection
+			}
+			wire := append(h.AppendTo(nil, len(body)), body...)
+			mu.Lock()
+			k := count
+			count++
+			mu.Unlock()
+			fl := faults[fmt.Sprintf("%s%d", dir, k)]
+			if fl.lateDup && !fl.drop {
+				cp := append([]byte(nil), wire...)
+				go func() {
+					select {
+					case <-stop:
+					case <-time.After(300 * time.Millisecond):
+						select {
+						case ch <- cp:
+						case <-stop:
+						}
+					}
+				}()
+			}
+			switch {
+			case fl.drop:
+			case fl.late:
+				go func() {
+					select {
+					case <-stop:
+					case <-time.After(300 * time.Millisecond):
+						select {
+						case ch <- wire:
+						case <-stop:
+						}
+					}
+				}()
+			default:
+				select {
+				case ch <- wire:
+				default:
+				}
+				if fl.dup {
+					select {
+					case ch <- append([]byte(nil), wire...):
+					default:
+					}
+				}
+			}
+			return nil
+		}
+		return fn, ch
+	}
+	toLNS, _ := link("a", lacIP, lnsIP, lns)
+	toLAC, _ := link("b", lnsIP, lacIP, lac)
+	lac.SetSendControlFn(toLNS)
+	lns.SetSendControlFn(toLAC)
+	lns.SetLNSConfigResolver(func(string) (LNSConfig, bool) {
+		return LNSConfig{LocalHostname: "lns", ReceiveWindowSize: 4, HelloInterval: time.Hour}, true
+	})
+	count := func(c *Component) (int, int, bool) {
+		c.mu.RLock()
+		var ts []*Tunnel
+		for _, x := range c.tunnels {
+			ts = append(ts, x)
+		}
+		c.mu.RUnlock()
+		ns, est := 0, false
+		for _, x := range ts {
+			x.mu.Lock()
+			for _, s := range x.Sessions {
+				ns++
+				if s.FSM != nil && s.FSM.State() == l2tppkt.SessionEstablished {
+					est = true
+				}
+			}
+			x.mu.Unlock()
+		}
+		return len(ts), ns, est
+	}
+	if err := lac.StartLACSession(LACBringUpRequest{PPPoESessionID: 7, LocalIP: lacIP,
+		TunnelSpecs: []TunnelSpec{{ServerIP: lnsIP}}}); err != nil {
+		close(stop)
+		return "e2e lac-start-failed"
+	}
+	deadline := time.Now().Add(7 * time.Second)
+	settledAt := time.Time{}
+	for time.Now().Before(deadline) {
+		_, _, e1 := count(lac)
+		_, _, e2 := count(lns)
+		if e1 && e2 {
+			if settledAt.IsZero() {
+				settledAt = time.Now()
+			}
+			if time.Since(settledAt) > 700*time.Millisecond {
+				break
+			}
+		}
+		time.Sleep(20 * time.Millisecond)
+	}
+	t1, s1, e1 := count(lac)
+	t2, s2, e2 := count(lns)
+	close(stop)
+	for _, c := range []*Component{lac, lns} {
+		c.mu.RLock()
+		var rs []*tunnelRunner
+		for _, r := range c.runners {
+			rs = append(rs, r)
+		}
+		c.mu.RUnlock()
+		for _, r := range rs {
+			r.Stop()
+		}
+	}
+	b := func(x bool) int {
+		if x {
+			return 1
+		}
+		return 0
+	}
+	seq := func(c *Component) string { // Ns/Nr of the (first) tunnel's channel: how many messages went each way
+		c.mu.RLock()
+		defer c.mu.RUnlock()
+		for _, x := range c.tunnels {
+			if x.Channel != nil {
+				return fmt.Sprintf("%d/%d", x.Channel.Ns(), x.Channel.Nr())
+			}
+		}
+		return "-"
+	}
+	q1, q2 := seq(lac), seq(lns)
+	return fmt.Sprintf("e2e lac=T%dS%d,%s lns=T%dS%d,%s est=%d%d", t1, s1, q1, t2, s2, q2, b(e1), b(e2))
+}
+
 func vfDispGuard(line string) string {
 	done := make(chan string, 1)
 	go func() {
@@ -873,6 +1063,8 @@ func vfDispGuard(line string) string {
 		f := strings.Fields(line)
 		if len(f) >= 2 && f[0] == "disp" {
 			done <- vfDispCase(f[1:])
+		} else if len(f) >= 1 && f[0] == "e2e" {
+			done <- vfE2ECase(f[1:])
 		} else if len(f) >= 2 && f[0] == "estab" {
 			done <- vfEstabCase(f[1:])
 		} else if len(f) >= 2 && f[0] == "runner" {
@@ -927,7 +1119,7 @@ func TestVerifC16Dispatch(t *testing.T) {
 	// the real-time runner cases only sleep: run them all at once, before the CPU-bound cases
 	pre := map[int]chan string{}
 	for i, l := range lines {
-		if strings.HasPrefix(l, "runner ") || strings.HasPrefix(l, "overlap ") {
+		if strings.HasPrefix(l, "runner ") || strings.HasPrefix(l, "overlap ") || strings.HasPrefix(l, "e2e") {
 			ch := make(chan string, 1)
 			pre[i] = ch
 			go func(l string) { ch <- vfDispGuard(l) }(l)
